@@ -132,7 +132,10 @@ ApplyParse(m, e, obj, step) ==
   LET f1 == ExcClass(TRUE, e, "parse.exc", step)
       phi0 == Desugar(IF IsWritten(obj) THEN NormAst(obj.written, DenseU(obj)) ELSE obj.phi)
       impl == IF IsWritten(obj) /\ obj.implAst.op # "none" THEN NormAst(obj.implAst, DenseU(obj)) ELSE obj.implAst
-      f2 == IF f1 = Ok /\ obj.implKnown /\ impl # phi0 THEN F("parse.ast", step, phi0, impl) ELSE Ok IN
+      \* (a tree that differs from the expected one but denotes the same signal transformer on all short cell sequences -
+      \*  constants folded, nodes shared or re-associated - is no defect)
+      f2 == IF f1 = Ok /\ obj.implKnown /\ impl # phi0 /\ ~SemEqC(Desugar(impl), phi0, m.cfg.S, m.cfg.M)
+            THEN F("parse.ast", step, phi0, impl) ELSE Ok IN
   \* (after a parse() that failed although it must succeed the object is not examined any further: the failure is recorded)
   IF f1 # Ok THEN R([m EXCEPT !.dead = TRUE], f1, 0) ELSE
   R(Install([m EXCEPT !.phase = "parsed", !.phi = phi0, !.inst = phi0]), f1 \o f2, 0)
